@@ -160,6 +160,9 @@ func intWidth(t types.Type) int {
 
 // zero returns the zero value of a type.
 func (e *Engine) zero(t types.Type) Value {
+	if z := opaqueZero(t); z != nil {
+		return z
+	}
 	switch u := t.Underlying().(type) {
 	case *types.Basic:
 		switch {
